@@ -24,10 +24,26 @@ func init() {
 	lab.Register("c01-xe2e", c01XE2E)
 	// the same lab under C07: what varies is how the byte stream is cut into writes (with pauses, so that the cuts survive as reads)
 	// and on the detecting lanes every batch opens a fresh connection, so the protocol is detected from its first bytes each time
+	// ... and under C02: replies of a batch are permuted and written in one or several writes while the proxy relays them; a reply
+	// that reaches the client under its own id but with bytes of ANOTHER reply of the batch is a mixed exchange
+	lab.Register("c02-xe2e", func(c *lab.Ctx) {
+		xePrefix = "C02"
+		c01XE2E(c)
+	})
 	lab.Register("c07-xe2e", func(c *lab.Ctx) {
 		xePrefix, xeSegHeavy = "C07", true
 		c01XE2E(c)
 	})
+}
+
+// xeReport: under C02 only the correlation rules are reported (a response under an id nobody waits for, a response carrying bytes
+// of another exchange of the batch); everything else the lab sees there is C01's / C07's subject and only counted
+func xeReport(c *lab.Ctx, rule, sig, what string, wit interface{}) {
+	if xePrefix == "C02" && !strings.Contains(sig, "/response-id-unknown") && !strings.Contains(sig, "/response-mixes-exchanges") {
+		c.Count("xe2e_not_reported_under_C02:"+sig, 1)
+		return
+	}
+	c.Violation(rule, sig, what, wit)
 }
 
 // xePrefix is the property the lab reports under; xeSegHeavy selects the segmentation-centred variant (C07)
@@ -569,7 +585,7 @@ func xeRunCodec(c *lab.Ctx, name, key, addr string, u *xeUpstream, nCases int, a
 		u.bad = ""
 		u.mu.Unlock()
 		if bad != "" {
-			c.Violation("a forwarded xprotocol frame is byte-identical to the received frame except for the request id", xePrefix+"/xe2e/"+name+"/request-stream-unframeable", bad, witness(bad))
+			xeReport(c, "a forwarded xprotocol frame is byte-identical to the received frame except for the request id", xePrefix+"/xe2e/"+name+"/request-stream-unframeable", bad, witness(bad))
 			_ = cl.connect()
 			continue
 		}
@@ -579,7 +595,7 @@ func xeRunCodec(c *lab.Ctx, name, key, addr string, u *xeUpstream, nCases int, a
 				// bytes arrived that the reference framer cannot complete into the sent frames: the forwarded stream is not the sent one
 				exp := stream
 				what := fmt.Sprintf("%s: %s; the upstream holds %d bytes that do not complete a frame (head % x); sent stream head % x", name, failed, len(pb), pb[:minInt(len(pb), 24)], exp[:minInt(len(exp), 24)])
-				c.Violation("a forwarded xprotocol frame is byte-identical to the received frame except for the request id", xePrefix+"/xe2e/"+name+"/request-stream-desynchronised", what, witness(what))
+				xeReport(c, "a forwarded xprotocol frame is byte-identical to the received frame except for the request id", xePrefix+"/xe2e/"+name+"/request-stream-desynchronised", what, witness(what))
 				u.closeAll()
 				_ = cl.connect()
 				continue
@@ -588,7 +604,7 @@ func xeRunCodec(c *lab.Ctx, name, key, addr string, u *xeUpstream, nCases int, a
 			fr, rerr := cl.readFrame(300 * time.Millisecond)
 			if rerr == nil || rerr == io.EOF || strings.Contains(fmt.Sprint(rerr), "reset") {
 				what := fmt.Sprintf("%s: %s; the proxy answered with a %d-byte frame (% x) / err=%v instead of forwarding well-formed requests", name, failed, len(fr), fr[:minInt(len(fr), 48)], rerr)
-				c.Violation("a well-formed request reaches the other side", xePrefix+"/xe2e/"+name+"/request-not-forwarded", what, witness(what))
+				xeReport(c, "a well-formed request reaches the other side", xePrefix+"/xe2e/"+name+"/request-not-forwarded", what, witness(what))
 			} else {
 				c.Inconclusive("xe2e " + name + ": " + failed)
 			}
@@ -623,7 +639,7 @@ func xeRunCodec(c *lab.Ctx, name, key, addr string, u *xeUpstream, nCases int, a
 				}
 				if found < 0 {
 					what := fmt.Sprintf("tars request forwarded with different content: %s", why)
-					c.Violation("a forwarded frame carries the same content", xePrefix+"/xe2e/tars/request-altered", what, witness(what))
+					xeReport(c, "a forwarded frame carries the same content", xePrefix+"/xe2e/tars/request-altered", what, witness(what))
 					violated = true
 					break
 				}
@@ -650,7 +666,7 @@ func xeRunCodec(c *lab.Ctx, name, key, addr string, u *xeUpstream, nCases int, a
 					cls = "length-differs"
 				}
 				what := fmt.Sprintf("%s request forwarded altered (%s): sent %d bytes (%s), upstream received %d bytes, first difference at offset %d (id field at %d..%d)", name, cls, len(ref.Raw), ref.Desc, len(ev.raw), xeMaskedDiff(name, ref.Raw, ev.raw), ref.IDOff, ref.IDOff+ref.IDLen)
-				c.Violation("a forwarded xprotocol frame is byte-identical to the received frame except for the request id", xePrefix+"/xe2e/"+name+"/request-altered/"+cls, what, witness(what))
+				xeReport(c, "a forwarded xprotocol frame is byte-identical to the received frame except for the request id", xePrefix+"/xe2e/"+name+"/request-altered/"+cls, what, witness(what))
 				violated = true
 				break
 			}
@@ -671,6 +687,7 @@ func xeRunCodec(c *lab.Ctx, name, key, addr string, u *xeUpstream, nCases int, a
 			sent []byte // what the upstream wrote (id = MOSN's)
 		}
 		expect := map[uint64]*pending{}
+		var sentAll [][]byte // every reply the upstream wrote for this batch
 		var out []byte
 		var outConn *xeConn
 		flush := func() {
@@ -706,6 +723,9 @@ func xeRunCodec(c *lab.Ctx, name, key, addr string, u *xeUpstream, nCases int, a
 				copy(resp[roff:roff+rn], ev.raw[qoff:qoff+qn])
 			}
 			expect[rq.rf.ID] = &pending{rq: rq, sent: resp}
+			if len(resp) > 0 {
+				sentAll = append(sentAll, resp)
+			}
 			if oneWrite && (outConn == nil || outConn == ev.conn) {
 				outConn = ev.conn
 				out = append(out, resp...)
@@ -724,7 +744,7 @@ func xeRunCodec(c *lab.Ctx, name, key, addr string, u *xeUpstream, nCases int, a
 				if ne, ok := err.(net.Error); ok && ne.Timeout() {
 					c.Inconclusive("xe2e " + what)
 				} else {
-					c.Violation("a response reaches the client unchanged", xePrefix+"/xe2e/"+name+"/response-not-delivered", what, witness(what))
+					xeReport(c, "a response reaches the client unchanged", xePrefix+"/xe2e/"+name+"/response-not-delivered", what, witness(what))
 				}
 				violated = true
 				break
@@ -734,20 +754,20 @@ func xeRunCodec(c *lab.Ctx, name, key, addr string, u *xeUpstream, nCases int, a
 				p, perr := parseTarsResponse(fr)
 				if perr != nil {
 					what := fmt.Sprintf("tars response from the proxy does not parse: %v", perr)
-					c.Violation("a response reaches the client unchanged", xePrefix+"/xe2e/tars/response-altered", what, witness(what))
+					xeReport(c, "a response reaches the client unchanged", xePrefix+"/xe2e/tars/response-altered", what, witness(what))
 					violated = true
 					break
 				}
 				pd := expect[uint64(uint32(p.IRequestId))]
 				if pd == nil {
 					what := fmt.Sprintf("tars response with request id %d which no pending request of this batch carries", p.IRequestId)
-					c.Violation("a response reaches the client unchanged", xePrefix+"/xe2e/tars/response-id-unknown", what, witness(what))
+					xeReport(c, "a response reaches the client unchanged", xePrefix+"/xe2e/tars/response-id-unknown", what, witness(what))
 					violated = true
 					break
 				}
 				delete(expect, uint64(uint32(p.IRequestId)))
 				if d := xeTarsEqual(pd.sent, fr, false); d != "" {
-					c.Violation("a response reaches the client unchanged", xePrefix+"/xe2e/tars/response-altered", d, witness(d))
+					xeReport(c, "a response reaches the client unchanged", xePrefix+"/xe2e/tars/response-altered", d, witness(d))
 					violated = true
 					break
 				}
@@ -756,7 +776,7 @@ func xeRunCodec(c *lab.Ctx, name, key, addr string, u *xeUpstream, nCases int, a
 			off, n, ok := xeIDSpan(name, fr)
 			if !ok {
 				what := fmt.Sprintf("%s: %d-byte frame from the proxy is shorter than a header", name, len(fr))
-				c.Violation("a response reaches the client unchanged", xePrefix+"/xe2e/"+name+"/response-altered/short", what, witness(what))
+				xeReport(c, "a response reaches the client unchanged", xePrefix+"/xe2e/"+name+"/response-altered/short", what, witness(what))
 				violated = true
 				break
 			}
@@ -769,18 +789,42 @@ func xeRunCodec(c *lab.Ctx, name, key, addr string, u *xeUpstream, nCases int, a
 			pd := expect[id]
 			if pd == nil {
 				what := fmt.Sprintf("%s: response with request id %d which no pending request of this batch carries (%d bytes: % x)", name, id, len(fr), fr[:minInt(len(fr), 48)])
-				c.Violation("a response reaches the client unchanged", xePrefix+"/xe2e/"+name+"/response-id-unknown", what, witness(what))
+				xeReport(c, "a response reaches the client unchanged", xePrefix+"/xe2e/"+name+"/response-id-unknown", what, witness(what))
 				violated = true
 				break
 			}
 			delete(expect, id)
 			if xeMasked(name, fr) != xeMasked(name, pd.sent) {
+				// do the wrong bytes come from another reply of this batch?
+				for _, other := range sentAll {
+					if &other[0] == &pd.sent[0] {
+						continue
+					}
+					foreign := 0
+					for i := 0; i < len(fr) && i < len(other) && i < len(pd.sent); i++ {
+						if (i < off || i >= off+n) && fr[i] == other[i] && fr[i] != pd.sent[i] {
+							foreign++
+						}
+					}
+					if len(fr) > len(pd.sent) {
+						for i := len(pd.sent); i < len(fr) && i < len(other); i++ {
+							if fr[i] == other[i] {
+								foreign++
+							}
+						}
+					}
+					if foreign >= 8 {
+						what := fmt.Sprintf("%s: the response delivered under request id %d carries %d bytes of ANOTHER response of the same batch at the same offsets (upstream wrote %d bytes for this request, client received %d bytes): header and body come from different exchanges", name, id, foreign, len(pd.sent), len(fr))
+						xeReport(c, "no message whose header and body come from different exchanges", xePrefix+"/xe2e/"+name+"/response-mixes-exchanges", what, witness(what))
+						break
+					}
+				}
 				cls := "bytes-differ"
 				if len(fr) != len(pd.sent) {
 					cls = "length-differs"
 				}
 				what := fmt.Sprintf("%s response delivered altered (%s): upstream wrote %d bytes (%s), client received %d bytes, first difference at offset %d (id field at %d..%d)", name, cls, len(pd.sent), pd.rq.rresp.Desc, len(fr), xeMaskedDiff(name, pd.sent, fr), off, off+n)
-				c.Violation("a response reaches the client unchanged", xePrefix+"/xe2e/"+name+"/response-altered/"+cls, what, witness(what))
+				xeReport(c, "a response reaches the client unchanged", xePrefix+"/xe2e/"+name+"/response-altered/"+cls, what, witness(what))
 				violated = true
 				break
 			}
@@ -795,7 +839,7 @@ func xeRunCodec(c *lab.Ctx, name, key, addr string, u *xeUpstream, nCases int, a
 		select {
 		case ev := <-u.got:
 			what := fmt.Sprintf("%s: a frame of %d bytes reached the upstream in addition to the %d sent", name, len(ev.raw), k)
-			c.Violation("each frame is forwarded exactly once", xePrefix+"/xe2e/"+name+"/surplus-frame-forwarded", what, witness(what))
+			xeReport(c, "each frame is forwarded exactly once", xePrefix+"/xe2e/"+name+"/surplus-frame-forwarded", what, witness(what))
 			_ = cl.connect()
 			continue
 		default:
